@@ -437,3 +437,29 @@ def alternatives(e):
                 yield y
     else:
         yield x
+
+
+def upvar_origin(prog, f, e, depth=0):
+    """for an expression rooted in a captured variable of closure `f`: the traced value the parent puts into that capture where
+    it builds the closure (None when it cannot be resolved).  A closure that captures `location` by reference reads the
+    parent's `location` as it is at the construction site."""
+    r = root(e)
+    if r[0] != "upvar" or not getattr(f, "parent", None) or depth > 2:
+        return None
+    pf = prog.fns.get(f.parent)
+    if pf is None or pf.body is None:
+        return None
+    names = {r[1], "_ref__" + r[1], r[1][len("_ref__"):] if r[1].startswith("_ref__") else r[1]}
+    found = []
+    for b in sorted(pf.body.reachable()):
+        for st in pf.body.blocks[b]["stmts"]:
+            if st["k"] == "assign" and st["rv"]["k"] == "aggregate" and st["rv"].get("agg") == "closure" and st["rv"].get("closure") == f.id:
+                for fld, op in zip(st["rv"]["fields"], st["rv"]["ops"]):
+                    if fld in names:
+                        found.append(op)
+    if len(found) != 1:
+        return None
+    pe = Tracer(pf.body).operand(found[0])
+    if root(pe)[0] == "upvar":
+        return upvar_origin(prog, pf, pe, depth + 1)
+    return pe
